@@ -76,7 +76,8 @@ inductive Status where
 structure Cfg where
   /-- compiled build: `AsyncContext._active_task` is a typed slot (contexts.pxd): reading it never fails (None), `del` stores None -/
   typed : Bool := false
-  /-- `AsyncContext.__enter__` unregisters the context again when its resume() raises (NOT what contexts.py does today) -/
+  /-- `AsyncContext.__enter__` unregisters the context again when its resume() raises (contexts.py since /repo commit cfff886;
+      `false` = the code before that repair, kept for the counterexamples) -/
   cleanEnter : Bool := false
   deriving Repr, DecidableEq, Inhabited
 
@@ -266,14 +267,14 @@ def finalState (cfg : Cfg) (defs : List Kind) (s : St) : List Op → St
   | [] => s
   | op :: ops => finalState cfg defs (step cfg defs s op).1 ops
 
-/-- contexts.py as it is TODAY: `AsyncContext.__enter__` leaves the context registered when its resume() raises -/
+/-- contexts.py BEFORE /repo commit cfff886: `AsyncContext.__enter__` left the context registered when its resume() raised -/
 def leakyCfg (typed : Bool) : Cfg := { typed := typed, cleanEnter := false }
 
-/-- contexts.py with the repaired `__enter__` (unregisters the context when resume() raises) -/
+/-- contexts.py as it is (since cfff886): `__enter__` unregisters the context when resume() raises -/
 def repairedCfg (typed : Bool) : Cfg := { typed := typed, cleanEnter := true }
 
 /-- the configuration the driver replays - it MUST describe the code in /repo (the harness supplies `typed`):
-    `leakyCfg` today; switch to `repairedCfg` together with the repair of contexts.py -/
+    `repairedCfg` since the repair of contexts.py (cfff886); `leakyCfg` described the code before it -/
 def codeCfg (typed : Bool) : Cfg := repairedCfg typed
 
 /-! ## the property: an observer over observations, in the vocabulary of the USER of the contexts
